@@ -19,6 +19,10 @@ VAR = "chalk_ir::Variance"
 NAMES = {"Invariant": "Inv", "Covariant": "Co", "Contravariant": "Contra"}
 
 
+FACTS = None
+AMBIENT = {"variance", "ambient"}
+
+
 def compose(a, b):
     if a == "Inv" or b == "Inv":
         return "Inv"
@@ -36,7 +40,7 @@ def variance_of(expr, lets):
     if k == "adt" and e.get("adt") == VAR:
         return NAMES[e["v"]]
     if k == "var":
-        if e["n"] in ("variance", "ambient"):
+        if e["n"] in AMBIENT:
             return "amb"
         if e["n"] in lets:
             return variance_of(lets[e["n"]], lets)
@@ -53,6 +57,15 @@ def variance_of(expr, lets):
         return "mut(%s|%s)" % (res["Not"], res["Mut"])
     if k == "block":
         return variance_of(result_expr(e), lets)
+    if k == "call" and FACTS is not None:
+        # a small helper of the workspace that computes a variance (e.g. from a mutability): look into it (one level)
+        for name in (e.get("res"), e.get("fn")):
+            hb = FACTS.body(name) if name else None
+            if hb is not None and hb.thir is not None and str(hb.d.get("ret", "")).endswith("Variance") and "{" not in name:
+                from kit import user_block
+                inner = variance_of(result_expr(user_block(hb.thir)), lets_of(hb.thir))
+                if not inner.startswith("?"):
+                    return inner
     return "?"
 
 
@@ -114,6 +127,13 @@ POSITIONS = {
 
 
 def run(ck, facts, tier):
+    global FACTS
+    FACTS = facts
+    from kit import params_of_type
+    for _k in ("chalk_solve::infer::unify::Unifier::relate_ty_ty", "chalk_solve::infer::unify::Unifier::generalize_ty"):
+        _b = facts.body(_k)
+        if _b is not None:
+            AMBIENT.update(params_of_type(_b, "Variance"))
     # ------------------------------------------------------------------ ALGEBRA
     R = "C29.ALGEBRA"
     ck.rule(R, "K1: Variance::xform is variance composition (Invariant absorbs, Covariant is the identity, Contra o Contra = Co) and "
